@@ -445,16 +445,17 @@ def parseBkgd (d : Dec) : PRes :=
       | some e => if d.raw.length = e then .ok (setInfo d (fun i => { i with bkgd := some d.raw }), .nothing) else .ok (d, .nothing)
     else .ok (d, .nothing)
 
-/-- profile name loop of `parse_iccp_raw` (stream.rs:1564-1573): returns the rest after the NUL -/
+/-- profile name loop of `parse_iccp_raw` (stream.rs:1571-1581, after repair of D28: `for len in 0..=79`, a name has 1-79 bytes):
+    returns the rest after the NUL -/
 def iccpName : Nat → Nat → Bytes → Except PErr Bytes
-  | 0, _, _ => .ok []   -- unreachable: the loop returns within 81 iterations
+  | 0, _, _ => .ok []   -- unreachable: the loop returns within 80 iterations
   | fuel+1, len, b =>
     match b with
     | [] => .error .eof
     | raw :: rest =>
-      if (raw = 0 ∧ len = 0) ∨ (raw ≠ 0 ∧ len = 80) then .error (.format "InvalidKeywordSize")
+      if (raw = 0 ∧ len = 0) ∨ (raw ≠ 0 ∧ len = 79) then .error (.format "InvalidKeywordSize")
       else if raw = 0 then .ok rest
-      else if len = 80 then .ok rest
+      else if len = 79 then .ok rest
       else iccpName fuel (len + 1) rest
 
 /-- `parse_iccp_raw` (stream.rs:1559-1590); every error is swallowed by `parse_iccp` -/
